@@ -49,6 +49,9 @@ func genStep(p *Profile, cfg *Config) *rapid.Generator[[]Op] {
 			if rapid.IntRange(0, 2).Draw(t, "hasdl") == 0 {
 				op.DlMs = rapid.SampledFrom([]int{1, 5, 50, 1000}).Draw(t, "dlms")
 			}
+			if rapid.IntRange(0, 15).Draw(t, "late") == 0 {
+				op.Late = rapid.IntRange(1, 2).Draw(t, "latekind")
+			}
 			if rapid.IntRange(0, 11).Draw(t, "expired") == 0 {
 				op.Exp = true
 			}
